@@ -634,3 +634,60 @@ def tree_10(ctx, rep):
             rep.ob('TREE-10', TREE, g.qual, 'return %s' % norm(v), ok,
                    'the lookup hands out %s instead of the child its search located (or that child\'s own lookup result)' % norm(v))
     rep.minimum('TREE-10', 5)
+
+
+# ---------------------------------------------------------------------------
+# TREE-11: node types are looked up in collections, never in a string
+# ---------------------------------------------------------------------------
+def tree_11(ctx, rep):
+    rep.rule('TREE-11', 'in the tree modules a node type is tested for membership (`x.type in C`) only in a collection: a '
+                        'tuple / list / set display, a module-level collection, or the *args tuple itself (never rebound): '
+                        'if C can be a plain string the test becomes a substring test (`"expr" in "expr_stmt"`)')
+    n_sites = 0
+    for rel in (TREE, PYTREE):
+        mod = ctx.prog.mod(rel)
+        folder = None
+        for f in mod.funcs.values():
+            a = f.node.args
+            vararg = a.vararg.arg if a.vararg else None
+            for n in walk_own(f.node):
+                if not (isinstance(n, ast.Compare) and len(n.ops) == 1 and isinstance(n.ops[0], (ast.In, ast.NotIn))
+                        and isinstance(n.left, ast.Attribute) and n.left.attr == 'type'):
+                    continue
+                c = n.comparators[0]
+                n_sites += 1
+                ok, why = False, 'the container %s is not known to be a collection' % norm(c)
+                if isinstance(c, (ast.Tuple, ast.List, ast.Set)):
+                    ok = True
+                elif isinstance(c, ast.Constant) and isinstance(c.value, str):
+                    ok, why = False, 'the container is a string literal: substring test'
+                elif isinstance(c, ast.Name):
+                    stores = [x for x in walk_own(f.node) if isinstance(x, ast.Name) and x.id == c.id and isinstance(x.ctx, ast.Store)]
+                    # a closure variable: the *args of an enclosing function
+                    g = f.outer
+                    own_vararg = vararg
+                    while g is not None and c.id != own_vararg and not stores and c.id not in f.all_params():
+                        ga = g.node.args
+                        if ga.vararg and ga.vararg.arg == c.id:
+                            own_vararg = c.id
+                            stores = [x for x in walk_own(g.node) if isinstance(x, ast.Name) and x.id == c.id and isinstance(x.ctx, ast.Store)]
+                            break
+                        g = g.outer
+                    if c.id == own_vararg:
+                        ok = not stores
+                        why = 'the *%s tuple is rebound in %s (to one of its elements?): a single type name turns the test into ' \
+                              'a substring test' % (c.id, f.qual)
+                    elif not stores and c.id not in f.all_params():
+                        vals = [v for v in mod.globals.get(c.id, []) or [] if v is not None]
+                        ok = bool(vals) and all(isinstance(v, (ast.Tuple, ast.List, ast.Set, ast.Call, ast.BinOp)) for v in vals)
+                    elif stores:
+                        vals = [s_._parent.value for s_ in stores if isinstance(getattr(s_, '_parent', None), ast.Assign)]
+                        ok = bool(vals) and len(vals) == len(stores) and all(isinstance(v, (ast.Tuple, ast.List, ast.Set, ast.SetComp, ast.ListComp)) for v in vals)
+                    else:
+                        rep.skip('TREE-11', rel, f.qual, norm(n), 'container is a parameter: decided at the call sites, not here')
+                        continue
+                else:
+                    rep.skip('TREE-11', rel, f.qual, norm(n), 'container expression not classified')
+                    continue
+                rep.ob('TREE-11', rel, f.qual, norm(n), ok, why)
+    rep.minimum('TREE-11', 10)
